@@ -134,7 +134,9 @@ class ValueOps:
         if getattr(self, 'read_log', None) is not None:
             self.read_log.add('SEQ')
         if st.seqh is None:
-            st.seqh = st.decls.global_const('SEQ', '(Array Int Int)')
+            if getattr(st.decls, 'base_seq', None) is None:
+                st.decls.base_seq = st.decls.global_const('SEQ', '(Array Int Int)')
+            st.seqh = st.decls.base_seq
         return st.seqh
 
     def box(self, sv):
@@ -335,7 +337,7 @@ class ValueOps:
         """drop the tags that the path condition already excludes / keep the one it asserts (syntactic)"""
         if len(kinds) <= 1:
             return kinds
-        pcs = {t for t, _ in self.st.pc} | set(getattr(self, 'guards', []))
+        pcs = {t for t, _ in self.st.pc} | set()
         for k in kinds:
             if is_tag(k, term) in pcs:
                 return [k]
@@ -574,10 +576,10 @@ class ValueOps:
             if check:
                 st.oblige(mk_and(mk_le('0', it), mk_lt(it, n)), 'index in range', lineno)
         ety = self.elem_ty(sv, idx.const if idx.is_const else None)
-        res = self.unbox("(at %s %s)" % (q, it), ety)
+        res = self.elem_unbox(sv, "(at %s %s)" % (q, it), ety)
         df = sv.extra.get('deepfresh') if isinstance(sv.extra, dict) else None
-        if df is not None:
-            res = self.mark_deepfresh(res, "(at %s %s)" % (q, it), df)
+        if df is not None and sv.kind == 'list' and sv.term is not None:
+            res = self.mark_deepfresh(res, df, ety, lst=sv.term, idx=it)
         return res
 
     # ------------------------------------------------------------ heap
@@ -606,32 +608,87 @@ class ValueOps:
             for f in self.families_of(classes):
                 self.read_log.add('%s@%s' % (attr, f))
         t = mk_select(arr, obj.term)
-        sv = self.unbox(t, ty)
+        # the field is typed because the object is of a class whose schema says so: recorded as "class => typing", which is an
+        # instance of the schema axiom and therefore true in every context -- also when the object was narrowed to that class
+        # only inside one alternative of an un-forked conditional (spec if/else, and/or chains)
+        g = self.cls_in(obj.term, classes)
+        st.push_guard(g)
+        try:
+            sv = self.unbox(t, ty)
+        finally:
+            st.pop_guard()
+        if sv.kind in ('list', 'tuple', 'val') and sv.extra is None:
+            sv = SV(sv.kind, sv.term, sv.ty, const=sv.const, elems=sv.elems, seq=sv.seq, owned=sv.owned, extra={'guard': g})
         df = obj.extra.get('deepfresh') if isinstance(obj.extra, dict) else None
         if df is not None:
-            sv = self.mark_deepfresh(sv, t, df)
+            sv = self.mark_deepfresh(sv, df, ty, obj=obj.term, attr=attr)
         if arr == st.decls.base_heap.get(attr) and getattr(self, 'alloc0', None) is not None:
             # a value stored in the entry heap refers to an object that existed at entry
             for k in ('ref', 'list', 'dict'):
                 if k in {atom_kind(a) for a in ty}:
                     sel = {'ref': 'vr', 'list': 'vl', 'dict': 'vd'}[k]
-                    st.assume(mk_implies(is_tag(k, t), mk_lt("(%s %s)" % (sel, t), self.alloc0)), 'wf')
+                    st.assume(mk_implies(mk_and(mk_lt(obj.term, self.alloc0), is_tag(k, t)), mk_lt("(%s %s)" % (sel, t), self.alloc0)), 'wf')
         return sv
+
+    def elem_unbox(self, lst, term, ety):
+        """an element of a list that was read from a field: its typing holds under the same class condition as the field's"""
+        g = lst.extra.get('guard') if lst is not None and isinstance(lst.extra, dict) else None
+        if g is None:
+            return self.unbox(term, ety)
+        self.st.push_guard(g)
+        try:
+            return self.unbox(term, ety)
+        finally:
+            self.st.pop_guard()
 
     def families_of(self, classes):
         return sorted({self.repo.family(c) for c in classes})
 
-    def mark_deepfresh(self, sv, boxed, df):
-        """a value read out of a deep copy: references, lists and dicts in it belong to the copy's own block of addresses"""
-        a0, a1 = df
+    def mark_deepfresh(self, sv, df, ty, obj=None, attr=None, lst=None, idx=None):
+        """a value read out of a deep copy.  The facts are about the heap *at the time of the copy* (the snapshot kept in df) and
+        are guarded by membership of the object read in the copy's block of addresses, so they stay sound after the copy has
+        been written to: containers stored in a copied object are copies (inside the block, mapped to their originals by the
+        copy's `orig` function), other values equal the original's."""
+        a0, a1, snap, seqsnap, k, root_seq = df
         st = self.st
-        for k, sel in (('ref', 'vr'), ('list', 'vl'), ('dict', 'vd')):
-            if sv.kind == k and sv.term is not None:
-                st.assume(mk_and(mk_le(a0, sv.term), mk_lt(sv.term, a1)), 'wf')
-            elif sv.kind == 'val' and ('any' in sv.ty or k in {atom_kind(a) for a in sv.ty}):
-                st.assume(mk_implies(is_tag(k, boxed), mk_and(mk_le(a0, "(%s %s)" % (sel, boxed)), mk_lt("(%s %s)" % (sel, boxed), a1))), 'wf')
-        if sv.kind in ('ref', 'list', 'dict', 'val') and sv.extra is None:
-            sv = SV(sv.kind, sv.term, sv.ty, const=sv.const, elems=sv.elems, seq=sv.seq, owned=sv.owned, extra={'deepfresh': df})
+        inblock = lambda t: mk_and(mk_le(a0, t), mk_lt(t, a1))
+        if obj is not None:
+            hc = snap.get(attr)
+            if hc is None:
+                if attr not in st.decls.base_heap:
+                    st.heap_arr(attr)
+                hc = st.decls.base_heap[attr]
+            guard = inblock(obj)
+            x = mk_select(hc, obj)
+            y = mk_select(hc, "(%s %s)" % (k, obj))
+        else:
+            guard = inblock(lst)
+            qc = mk_select(seqsnap, lst)
+            qo = mk_select(seqsnap, "(%s %s)" % (k, lst))
+            if root_seq is not None:
+                qo = mk_ite(mk_eq(lst, a0), root_seq, qo)
+            x = "(at %s %s)" % (qc, idx)
+            y = "(at %s %s)" % (qo, idx)
+            guard = mk_and(guard, mk_le('0', idx), mk_lt(idx, "(len %s)" % qc))
+        kinds = {atom_kind(a) for a in ty}
+        anyk = 'any' in ty
+        cont = []
+        for kk, sel in (('ref', 'vr'), ('list', 'vl'), ('dict', 'vd')):
+            if not (anyk or kk in kinds):
+                continue
+            cx, cy = "(%s %s)" % (sel, x), "(%s %s)" % (sel, y)
+            fact = [inblock(cx), is_tag(kk, y), mk_eq("(%s %s)" % (k, cx), cy)]
+            if kk == 'ref':
+                fact.append(mk_eq("(cls %s)" % cx, "(cls %s)" % cy))
+            if kk == 'list':
+                fact.append(mk_eq("(len %s)" % mk_select(seqsnap, cx), "(len %s)" % mk_select(seqsnap, cy)))
+            st.assume(mk_implies(mk_and(guard, is_tag(kk, x)), mk_and(*fact)), 'lib')
+            cont.append(is_tag(kk, x))
+        st.assume(mk_implies(mk_and(guard, *[mk_not(c) for c in cont]), mk_eq(x, y)), 'lib')
+        if sv.kind in ('ref', 'list', 'dict', 'val') and (sv.extra is None or (isinstance(sv.extra, dict) and 'deepfresh' not in sv.extra)):
+            ex = dict(sv.extra or {})
+            ex['deepfresh'] = df
+            sv = SV(sv.kind, sv.term, sv.ty, const=sv.const, elems=sv.elems, seq=sv.seq, owned=sv.owned, extra=ex)
         return sv
 
     def write_attr(self, obj, attr, val):
@@ -645,8 +702,11 @@ class ValueOps:
         if getattr(self, 'read_log', None) is not None:
             self.read_log.add('DICT')
         if st.ddom is None:
-            st.ddom = st.decls.global_const('DDOM', '(Array Int (Array Val Bool))')
-            st.dval = st.decls.global_const('DVAL', '(Array Int (Array Val Val))')
+            if getattr(st.decls, 'base_ddom', None) is None:
+                st.decls.base_ddom = st.decls.global_const('DDOM', '(Array Int (Array Val Bool))')
+                st.decls.base_dval = st.decls.global_const('DVAL', '(Array Int (Array Val Val))')
+            st.ddom = st.decls.base_ddom
+            st.dval = st.decls.base_dval
         return st.ddom, st.dval
 
     def dict_has(self, d, key):
